@@ -102,6 +102,7 @@ func (eng *Engine) initStubsHash() {
 	// RSA verification: arbitrary outcome, remembered for the harness
 	s["crypto/rsa.VerifyPKCS1v15"] = func(e *Exec, _ *frame, _ *ssa.Function, args []Value) Value {
 		e.oracleArg["rsa.verify.key"] = args[0]
+		e.oracle["rsa.verify#calls"]++
 		if e.Choice(2) == 0 {
 			e.oracle["rsa.verify"] = 0
 			e.oracleArgs["rsa.verify.okkey"] = append(e.oracleArgs["rsa.verify.okkey"], args[0])
@@ -156,6 +157,10 @@ func (eng *Engine) initStubsHash() {
 		}
 		sp, ok1 := seen.(Ptr)
 		return e.tc.Bool(ok1 && ok2 && sp.cell == hp.cell && sp.cell != nil)
+	}
+	s[vpPath+".StubCount"] = func(e *Exec, _ *frame, _ *ssa.Function, args []Value) Value {
+		name, _ := args[0].(*StrV).conc()
+		return e.tc.BV(uint64(e.oracle[name+"#calls"]), 64)
 	}
 	s[vpPath+".StubResult"] = func(e *Exec, _ *frame, _ *ssa.Function, args []Value) Value {
 		name, _ := args[0].(*StrV).conc()
